@@ -22,6 +22,7 @@ TRUSTED = ['numpy element-wise model over concrete-length vectors (pyvc/npvec.py
 EXPLANATION = ('bounded stand-in (never counted as proved): every public indicator inside the subset is run symbolically on a full and '
                'on a prefix input of concrete lengths; the prefix of the full series must equal the series of the prefix, term by term')
 MANIFEST = {
+    'technique': 'contract-based verification, bounded stand-in only: symbolic execution of the real indicator ASTs on concrete-length symbolic candles (prefix vs full input), plus bounded native prefix comparison on long and tied series',
     'category': 'other',
     'text': 'Bounded stand-in, labelled as such: for every public indicator with a sequential result whose code stays inside the '
             'engine\'s subset (list in the evidence), the real function is executed symbolically on candle arrays of concrete lengths '
